@@ -372,16 +372,16 @@ func H_C06_mutated() {
 }
 
 // H_C06_longhistory: a long sequence of distinct expressions through every
-// entry point (more than any plausible cache or intern table holds: 1100
-// quick, 4200 thorough) leaves the library working: every call returns what
+// entry point (more than any plausible cache or intern table holds: 3200
+// quick, 13000 thorough; each entry point sees a third) leaves the library working: every call returns what
 // the expression means, nothing panics, and the first expression still
 // evaluates as before once the sequence is over.
 func H_C06_longhistory() {
-	n := tq(1100, 4200)
+	n := tq(3200, 13000)
 	vrtBudget(60000000)
 	vrtMaxAlloc(100000)
 	vrtNote("template:" + strconv.Itoa(n) + " distinct expressions in sequence")
-	doc := map[string]any{"k7": "seven", "k1099": "last", "a": json.Number("1")}
+	doc := map[string]any{"k7": "seven", "k3199": "last", "a": json.Number("1")}
 	first, ferr := Search("a", doc)
 	for i := 0; i < n; i++ {
 		expr := "k" + strconv.Itoa(i)
@@ -398,7 +398,7 @@ func H_C06_longhistory() {
 			}
 		default:
 			got, err = Search(expr+" || `0`", doc)
-			if i != 7 && i != 1099 && err == nil {
+			if i != 7 && i != 3199 && err == nil {
 				vrtAssert(got == any(json.Number("0")), "expression number "+strconv.Itoa(i)+" of a long sequence evaluates wrongly")
 				continue
 			}
@@ -406,7 +406,7 @@ func H_C06_longhistory() {
 		vrtAssert(err == nil, "expression number "+strconv.Itoa(i)+" of a long sequence fails")
 		if i == 7 {
 			vrtAssert(got == any("seven"), "member lookup in a long sequence")
-		} else if i != 1099 {
+		} else if i != 3199 {
 			vrtAssert(got == nil || got == any(json.Number("0")), "absent member in a long sequence")
 		}
 	}
